@@ -45,13 +45,17 @@ TEXT = {
             'whether a success committed on another generation (every '
             'generation a request carries, at the step where its changes '
             'commit), serial replay of the real code decides equivalence, '
-            'requests answered 4xx must change nothing.'),
+            'requests answered 4xx must change nothing; includes renames / '
+            're-parenting (writes without generation) and one request hit '
+            'by a deadlock at its COMMIT while a competitor is in flight.'),
     'C06': ('deterministic transaction-granularity scheduler', 'pv-sched',
             '5/C06',
             'Concurrent writers of one consumer under enumerated transaction '
             'interleavings; at most one success per carried generation, a '
             'success moved the generation it carried, final allocations are '
-            'those of the last successful writer, losers change nothing.'),
+            'those of the last successful writer, losers change nothing; '
+            'clearing writes, reshapes naming new consumers and one writer '
+            'hit by a deadlock at its COMMIT included.'),
     'C07': ('scheduler + serial replay of the real code', 'pv-sched', '5/C07',
             'For every explored interleaving the concurrent final dump must '
             'equal the dump of some serial order of the successful requests '
@@ -89,13 +93,15 @@ TEXT = {
             'consumers.'),
     'C13': ('direct predicate evaluation on the dump', 'pv-seq', '5/C13',
             'GET /resource_providers answers for generated filter '
-            'conjunctions are compared with the statement\'s predicate '
-            'evaluated on the table dump.'),
+            'conjunctions (also one class named twice) are compared with '
+            'the statement\'s predicate evaluated on the table dump.'),
     'C14': ('exhaustive enumeration of versions x routes x methods + feature '
             'probes', 'pv-seq', '5/C14',
             'Finite space enumerated completely: 42 version settings x every '
-            'route x 6 methods, plus ~80 (partly state-dependent) feature '
-            'probes at every setting.'),
+            'route x 6 methods, plus ~110 (partly state-dependent) feature '
+            'probes at every setting (body members of every allocation-'
+            'writing route, headers of every readable route with and '
+            'without results).'),
     'C15': ('grammar-based request mutation + response well-formedness '
             'monitor', 'pv-seq', '5/C15',
             'Hundreds of thousands of mutated requests; every response is '
@@ -106,8 +112,10 @@ TEXT = {
             'single-rule overrides', 'pv-seq', '5/C16',
             'Finite space enumerated completely (operations in the current '
             'and 21 older request formats, aimed at existing, unknown and '
-            'bare entities, repeated parameters); dump and SQL statement '
-            'stream compared around every denied request.'),
+            'bare entities, repeated parameters; overrides loaded at '
+            'start and removed from the file of the running service); dump '
+            'and SQL statement stream compared around every denied '
+            'request.'),
     'C17': ('SQL-statement-indexed fault injection', 'pv-fault', '5/C17',
             'For every statement index of every corpus request one fault of '
             'each kind (and sampled pairs) is injected through SQLAlchemy '
